@@ -272,7 +272,9 @@ func (c *Ctx) callableGetterRule(rule string) {
 	if addr == nil {
 		return
 	}
-	isAddrCall := func(t *core.Term) bool { return t.Kind == "call" && (t.Name == addr.String() || t.Name == core.FuncName(addr)) }
+	isAddrCall := func(t *core.Term) bool {
+		return t.Kind == "call" && (t.Name == addr.String() || t.Name == core.FuncName(addr))
+	}
 	{
 		tr := withLit(c.Reach(addr).RetCond(0, true), c.M(true, assertOK("model.StructFieldNode")))
 		parent := func(t *core.Term) bool {
@@ -349,7 +351,9 @@ func (c *Ctx) callableGetterRule(rule string) {
 				return false
 			}
 			notMethod := c.M(false, assertOK("model.StructMethodNode"))
-			notPtrRecv := c.M(false, func(t *core.Term) bool { return t.Kind == "call" && strings.HasSuffix(t.Name, "StructMethodNode).PtrRecv") })
+			notPtrRecv := c.M(false, func(t *core.Term) bool {
+				return t.Kind == "call" && strings.HasSuffix(t.Name, "StructMethodNode).PtrRecv")
+			})
 			ptrContainer := c.M(true, func(t *core.Term) bool {
 				return t.IsCallTo(fnIsPtr) && t.Args[0].IsCallTo(invExprType) && isContainer(t.Args[0].Args[0])
 			})
@@ -614,7 +618,9 @@ func (c *Ctx) typeErrorMatchers() (isPos func(*core.Term) bool, lower, upper, sa
 	lower = c.M(true, either(cmp("<=", specPos, isPos), cmp(">=", isPos, specPos)))
 	upper = c.M(true, either(cmp("<", isPos, specEnd), cmp(">", specEnd, isPos)))
 	sameSpec = c.M(true, func(t *core.Term) bool {
-		return t.Kind == "binop" && t.Name == "==" && t.Contains(func(s *core.Term) bool { return s.IsField("ast.TypeSpec.Name") }) && t.Contains(func(s *core.Term) bool { return s.Kind == "invoke" && strings.HasSuffix(s.Name, ".Pos") && s.Args[0].Kind == "param" })
+		return t.Kind == "binop" && t.Name == "==" && t.Contains(func(s *core.Term) bool { return s.IsField("ast.TypeSpec.Name") }) && t.Contains(func(s *core.Term) bool {
+			return s.Kind == "invoke" && strings.HasSuffix(s.Name, ".Pos") && s.Args[0].Kind == "param"
+		})
 	})
 	return
 }
@@ -1030,7 +1036,9 @@ func (c *Ctx) lateShapeRules(rule, which string) {
 			}
 			r.Check(rule, FnKey(detector)+":false-only-when-exhausted", c.Pos(detector.Pos()), okScan, "the loop detector can answer false before it has seen every assignment of the list: a slice loop behind the element at which it stops is not noticed and the names i and e are not protected; "+whyScan)
 		}
-		noLoop := c.M(false, func(t *core.Term) bool { return t.Kind == "call" && (t.Name == detector.String() || t.Name == core.FuncName(detector)) })
+		noLoop := c.M(false, func(t *core.Term) bool {
+			return t.Kind == "call" && (t.Name == detector.String() || t.Name == core.FuncName(detector))
+		})
 		nameFree := func(name string) core.LitMatcher {
 			return c.M(false, func(t *core.Term) bool {
 				return (t.Kind == "lookup" || t.Kind == "lookup,ok" || t.Kind == "extract") && strings.Contains(t.String(), `const:"`+name+`"`) && strings.Contains(t.String(), "lookup")
